@@ -519,6 +519,7 @@ impl Sched {
         let job: Job = Box::new(move || {
             ME.with(|m| m.set(Some(idx)));
             EPOCH.with(|e| e.set(epoch));
+            crate::rec::set_logical_thread(Some(epoch * 10_000 + idx as u64));
             if wait {
                 let s = this.lock();
                 this.wait_grant(s, idx);
@@ -526,6 +527,7 @@ impl Sched {
             let r = catch_unwind(AssertUnwindSafe(f));
             this.thread_exit(idx, r.is_err());
             ME.with(|m| m.set(None));
+            crate::rec::set_logical_thread(None);
         });
         pool_run(job);
     }
